@@ -2,7 +2,8 @@
 
 H (histories, live daemon): generated histories of connections opening, calling and closing against a freshly generated
   class per case with mode single / session / percall, instance shapes truthy / falsy via __len__ or __bool__ / custom
-  __eq__+__hash__, with or without an instance creator (which may fail or return the wrong type on scripted attempts).
+  __eq__+__hash__, with or without an instance creator (which may fail, return the wrong type or an instance of a SUBCLASS on scripted
+  attempts), with an application disconnect hook that may raise.
   Every instance takes a serial number in __init__; every call returns it.  A reference model says which serial each
   call must report.  Steps may also be ONEWAY calls (the method records, under a token, which instance served it; the
   first call of a connection / of the daemon may be one, so the instance is created on behalf of a oneway call), the
@@ -23,7 +24,7 @@ from vlib import sched as S
 
 PROPERTY = "C09"
 LEVEL = "exploration"
-RULE = ("H: a case = (mode, instance shape, creator script, history of <= 14 open/call/oneway-call/close/abort steps over <= 3 connections); S: a case = "
+RULE = ("H: a case = (mode, instance shape, creator script incl. creators returning a subclass instance, raising disconnect hook yes/no, history of <= 14 open/call/oneway-call/close/abort steps over <= 3 connections); S: a case = "
         "(2-3 racing first calls on a single-mode class, shape, creator yes/no, schedule = choices at numbered decisions, one per executed "
         "line of server.py). Non-trivial: H - at least 2 connections with >= 2 calls on one of them, or a falsy shape, or a failing creator; "
         "S - the schedule preempts inside _getInstance at least once. distinct = distinct case JSON")
@@ -84,6 +85,10 @@ def make_class(cid, shape, mode, creator_script):
                 raise TypeError("creator fails on attempt %d with a TypeError of its own" % n)
             if act == "wrongtype":
                 return object()
+            if act == "subclass":
+                # a creator is free to hand out a specialisation of the registered class: it still is THE instance
+                base = clazz if clazz is not None else C
+                return type("Special" + base.__name__, (base,), {})()
             return (clazz if clazz is not None else C)()
     C = api.behavior(instance_mode=mode, instance_creator=creator)(C)
     return C
@@ -103,7 +108,9 @@ def h_case():
         "kind": st.just("H"),
         "mode": st.sampled_from(["single", "session", "percall"]),
         "shape": st.sampled_from(["truthy", "truthy", "len0", "boolfalse", "len0+bool", "eqhash", "slowinit"]),
-        "creator": st.one_of(st.none(), st.just(["ok"]), st.lists(st.sampled_from(["ok", "ok", "raise", "wrongtype", "typeerror"]), min_size=1, max_size=4)),
+        "creator": st.one_of(st.none(), st.just(["ok"]), st.just(["subclass"]),
+                            st.lists(st.sampled_from(["ok", "ok", "subclass", "raise", "wrongtype", "typeerror"]), min_size=1, max_size=4)),
+        "hook_raises": st.integers(0, 4).map(lambda n: n == 0),
         "steps": st.lists(step, min_size=1, max_size=14),
         "ser": st.sampled_from(["serpent", "marshal", "json", "msgpack"]),
     })
@@ -142,6 +149,7 @@ def run_h(case, servertype, keep):
         V.append(Violation("C09:" + sig, ("[%s] %s  case=%r" % (servertype, what, case))[:900]))
     C = make_class(cid, case["shape"], case["mode"], case["creator"])
     facts = FACTS[cid]
+    srv.daemon.v_hook_raises = bool(case.get("hook_raises"))      # an application disconnect hook that fails must not keep session instances alive
     oid = "inst%d" % cid
     srv.daemon.register(C, oid)
     mode = case["mode"]
@@ -205,7 +213,7 @@ def run_h(case, servertype, keep):
                     model["attempts"] += 1
                     if script is not None:
                         act = script[(model["attempts"] - 1) % len(script)] if script else "ok"
-                        expect_fail = act != "ok"
+                        expect_fail = act not in ("ok", "subclass")
                 label = "step %d %s on connection %d" % (n, op, i)
                 if op == "oneway":
                     # nothing comes back; which instance served it is recorded by the method itself under this token
@@ -294,7 +302,7 @@ def run_h(case, servertype, keep):
                         model["seen"].add(serial)
                         break
         # 'single' means one instance per DAEMON: a second daemon of the same process serving the same class has its own
-        if not V and mode == "single" and model["created"] >= 1 and (script is None or all(a == "ok" for a in script)):
+        if not V and mode == "single" and model["created"] >= 1 and (script is None or all(a in ("ok", "subclass") for a in script)):
             srv2 = L.get("served2")
             if srv2 is None or not srv2.loop_alive():
                 srv2 = L["served2"] = live.Served(servertype)
@@ -374,6 +382,7 @@ def run_h(case, servertype, keep):
             if mode == "percall":
                 gc.collect()
     finally:
+        srv.daemon.v_hook_raises = False
         for p in conns.values():
             try:
                 p._pyroRelease()
@@ -487,7 +496,8 @@ def _h_nontrivial(case):
 
 def _h_labels(case):
     return ["H", "mode:" + case["mode"], "shape:" + case["shape"],
-            "creator:" + ("none" if case["creator"] is None else "failing" if any(a != "ok" for a in case["creator"]) else "ok")]
+            "creator:" + ("none" if case["creator"] is None else "failing" if any(a not in ("ok", "subclass") for a in case["creator"]) else "ok")] + (
+                ["creator-returns-subclass-instance"] if case["creator"] and "subclass" in case["creator"] else []) + (["disconnect-hook-raises"] if case.get("hook_raises") else [])
 
 
 def SHARDS(tier):
